@@ -181,6 +181,16 @@ def check_memo(ctx, repo, cg, rid):
                         memo_sites.append((f, n, "dict", dotted(t.value)))
                     elif isinstance(t, ast.Attribute) and not (isinstance(t.value, ast.Name) and t.value.id == "self"):
                         memo_sites.append((f, n, "node", t.attr))
+    # any other attribute stored on the syntax-tree node being evaluated is a node-level memo too
+    evp = ev.params()[1] if len(ev.params()) > 1 else None
+    for n in walk_local(ev.node):
+        if isinstance(n, ast.Assign):
+            for t in n.targets:
+                if isinstance(t, ast.Attribute) and isinstance(t.value, ast.Name) and t.value.id == evp and not any(s[1] is n for s in memo_sites):
+                    ctx.instance(rid, ev.fq, f"node memo {t.attr}")
+                    ctx.ob(rid, ev.fq, f"no value derived from interpreter state is memoised on the syntax-tree node (.{t.attr})", False, node=n,
+                           construct=f"node memo .{t.attr} on the evaluated syntax-tree node",
+                           msg=f"eval stores .{t.attr} on the syntax-tree node it evaluates; nodes live in cached parse trees and function bodies, so what is stored (built from the current variable bindings) is reused after those bindings changed")
     ctx.floor(rid, "compile memo stores", len(memo_sites), 2)
     for f, n, kind, name in memo_sites:
         ctx.instance(rid, f.fq, f"compile memo {name}")
